@@ -559,23 +559,27 @@ func joinN(a, b *State) *State {
 }
 
 func widen(old, nw *State) *State {
+	// both sides in a common vocabulary (merge terms for differing values and
+	// cells, see unify), then: the constraints of the old side that the new
+	// side entails
+	a, b, _, _ := unify(old, nw)
 	r := old.clone()
 	r.cons = nil
-	for _, c := range old.cons {
+	for _, c := range a.cons {
 		if c.eq {
-			if entailsEQ(nw.cons, c.l) {
+			if entailsEQ(b.cons, c.l) {
 				r.cons = append(r.cons, c)
 				continue
 			}
-			if entailsLE(nw.cons, c.l) {
+			if entailsLE(b.cons, c.l) {
 				r.cons = append(r.cons, Con{l: c.l})
 			}
-			if entailsLE(nw.cons, c.l.scale(-1)) {
+			if entailsLE(b.cons, c.l.scale(-1)) {
 				r.cons = append(r.cons, Con{l: c.l.scale(-1)})
 			}
 			continue
 		}
-		if entailsLE(nw.cons, c.l) {
+		if entailsLE(b.cons, c.l) {
 			r.cons = append(r.cons, c)
 		}
 	}
@@ -954,6 +958,23 @@ func (a *Analyzer) backState(ctx int, b *ssa.BasicBlock, edgeOut map[edge][]*Sta
 			for k := range t.nilx {
 				if !keepVals[k] {
 					delete(t.nilx, k)
+				}
+			}
+			// memory cells are loop-carried too: what a cell holds at the end of
+			// the body (a value written or re-read inside the loop) keeps its
+			// constraints
+			keep := keep
+			if len(t.cells) > 0 {
+				cellTerms := liveTerms([]*State{{cells: t.cells, vals: map[vkey]AV{}}})
+				if len(cellTerms) > 0 {
+					k2 := make(map[Term]bool, len(keep)+len(cellTerms))
+					for tm := range keep {
+						k2[tm] = true
+					}
+					for tm := range cellTerms {
+						k2[tm] = true
+					}
+					keep = k2
 				}
 			}
 			for tm := range termSet(t.cons) {
